@@ -114,4 +114,36 @@ CodeSel(w, ch) == IF OutComp(w) = 1 THEN 3 ELSE ch
 CodeSrcIdx(w, W, H, row, col, ch) == InIdx(w, W, SrcRow(w, H, row), col, CodeSel(w, ch))
 CodeInBounds(w, W, H) == \A p \in Positions(w, W, H) : CodeSrcIdx(w, W, H, p[1], p[2], p[3]) \in 0..(InLen(w, W, H) - 1)
 CodeAgrees(w, W, H)   == \A p \in Positions(w, W, H) : CodeSrcIdx(w, W, H, p[1], p[2], p[3]) = SrcIdx(w, W, H, p[1], p[2], p[3])
+
+-------------------------------------------------------------------------------
+\* Large images (sizes around internal block / buffer boundaries).  The pixel content is not shipped as a list: it is the
+\* function Pix(pat, x, y, k) - the code of component k of the input pixel in column x of input row y - and a case carries only
+\* the pattern id.  Strides are co-prime to the modulus and a second term changes every 251 columns / rows, so that a shift by
+\* any number of columns, rows or channels changes values (PixLaws).  Codes stay in 0..250 (a byte; the float (c - 100) / 4).
+Coef == << <<7, 13, 5, 3, 11, 0>>, <<29, 3, 17, 1, 7, 100>> >>
+Patterns == DOMAIN Coef
+Pix(pat, x, y, k) == LET a == Coef[pat] IN (a[1] * x + a[2] * y + a[3] * k + a[4] * (x \div 251) + a[5] * (y \div 251) + a[6]) % 251
+
+\* the input as the flat component index sees it, and the decoded file through the SAME index map as for small images
+InPix(w, W, pat, i) == Pix(pat, (i \div PixComp(w)) % W, i \div (PixComp(w) * W), i % PixComp(w))
+DecodedAt(w, W, H, pat, row, col, ch) == InPix(w, W, pat, SrcIdx(w, W, H, row, col, ch))
+
+\* a shift by one, by a block of 256 / 512 / 768 / 1024 / 2048 / 2049 columns or rows, or to another channel is visible
+PixLaws == \A pat \in Patterns :
+  /\ \A x \in 0..1100, y \in 0..2, k \in 0..3 : Pix(pat, x, y, k) \in 0..250
+  /\ \A d \in {1, 2, 3, 255, 256, 257, 512, 768, 1023, 1024, 1025, 2048, 2049} : \A x \in 0..2100 :
+        /\ Pix(pat, x + d, 0, 0) # Pix(pat, x, 0, 0)
+        /\ Pix(pat, 0, x + d, 0) # Pix(pat, 0, x, 0)
+  /\ \A x \in 0..600, k1, k2 \in 0..3 : k1 # k2 => Pix(pat, x, 1, k1) # Pix(pat, x, 1, k2)
+  /\ \A x \in 0..250, y \in 0..250 : x # y => Pix(pat, x, y, 0) # Pix(pat, y, x, 0)                     \* rows are not columns
+
+\* positions compared sample by sample: both sides of every block boundary and both ends
+Near(n) == {i \in (0..2) \cup (255..257) \cup (767..769) \cup (1022..1026) \cup (2046..2050) \cup ((n - 3)..(n - 1)) : i >= 0 /\ i < n}
+SampleRows(H) == IF H <= 3 THEN 0..(H - 1) ELSE Near(H)
+SampleCols(W) == IF W <= 3 THEN 0..(W - 1) ELSE Near(W)
+
+\* aggregates in which EVERY sample of a file row takes part: the sum and a position-weighted sum of the row's samples in file
+\* order, modulo the prime 65521 (all intermediate values stay below 2^31)
+Prime == 65521
+RowVals(w, W, H, pat, row) == [i \in 1..(W * OutComp(w)) |-> DecodedAt(w, W, H, pat, row, (i - 1) \div OutComp(w), (i - 1) % OutComp(w))]
 ===============================================================================
